@@ -184,3 +184,24 @@ A(M("w3r4-t2-link-guard-clause-silent", ["C15"], T2F, "        if o3p is not Non
 
 # ---- conditional emission that went one way for every representative
 A(M("w3r4-write-pdb-writes-only-occupied", ["C09"], P2, "        pdb_line = _format_pdb_atom_line(atom_data)\n        buffer.write(pdb_line + \"\\n\")\n", "        if atom_data[\"occupancy\"] > 0.0:\n            pdb_line = _format_pdb_atom_line(atom_data)\n            buffer.write(pdb_line + \"\\n\")\n", "pdb-round-trip"))
+
+# ---- the atom line on probe rows; the four round trips with every writer and reader interpreted
+_FMT_OLD = "    x = f\"{atom_data.get('x', 0.0):8.3f}\"\n    y = f\"{atom_data.get('y', 0.0):8.3f}\"\n    z = f\"{atom_data.get('z', 0.0):8.3f}\"\n"
+A(M("w3r4-fmt-percent-silent", ["C09", "C10"], P2, None, None, kind="silent", edits=[
+    (_FMT_OLD, "    x, y, z = (\"%8.3f\" % atom_data.get(axis, 0.0) for axis in (\"x\", \"y\", \"z\"))\n"),
+    ("    occupancy = f\"{atom_data.get('occupancy', 1.0):6.2f}\"\n", "    occupancy = format(atom_data.get(\"occupancy\", 1.0), \"6.2f\")\n")]))
+A(M("w3r4-fmt-percent-two-decimals", ["C09"], P2, _FMT_OLD, "    x, y, z = (\"%8.2f\" % atom_data.get(axis, 0.0) for axis in (\"x\", \"y\", \"z\"))\n", "numeric-format"))
+A(M("w3r4-fmt-name-conditional-silent", ["C09"], P2, "    if len(atom_name) < 4 and atom_name[:1].isalpha():\n        # Pad with space on left for 1-3 char names starting with a letter\n        atom_name_fmt = (\" \" + atom_name).ljust(4)\n    else:\n        # Use as is, left-justified, for 4-char names or those starting with a digit\n        atom_name_fmt = atom_name.ljust(4)\n", "    padded = len(atom_name) < 4 and atom_name[:1].isalpha()\n    atom_name_fmt = f\"{' ' + atom_name if padded else atom_name:<4}\"\n", kind="silent"))
+A(M("w3r4-fmt-name-always-padded", ["C09"], P2, "    if len(atom_name) < 4 and atom_name[:1].isalpha():\n        # Pad with space on left for 1-3 char names starting with a letter\n        atom_name_fmt = (\" \" + atom_name).ljust(4)\n    else:\n        # Use as is, left-justified, for 4-char names or those starting with a digit\n        atom_name_fmt = atom_name.ljust(4)\n", "    padded = len(atom_name) < 4\n    atom_name_fmt = f\"{' ' + atom_name if padded else atom_name:<4}\"\n", "atom-name-alignment"))
+_PH_OLD = "            element_val = \"?\" if pd.isna(row.get(\"element\")) else str(row[\"element\"])\n            altloc_val = \".\" if pd.isna(row.get(\"altLoc\")) else str(row[\"altLoc\"])\n            icode_val = \".\" if pd.isna(row.get(\"iCode\")) else str(row[\"iCode\"])\n            charge_val = \".\" if pd.isna(row.get(\"charge\")) else str(row[\"charge\"])\n"
+_PH_DEF = "            def text_or(field, placeholder):\n                value = row.get(field)\n                return placeholder if pd.isna(value) else str(value)\n\n"
+A(M("w3r4-wcif-placeholder-helper-silent", ["C09"], P2, _PH_OLD, _PH_DEF + "            element_val = text_or(\"element\", \"?\")\n            altloc_val = text_or(\"altLoc\", \".\")\n            icode_val = text_or(\"iCode\", \".\")\n            charge_val = text_or(\"charge\", \".\")\n", kind="silent"))
+A(M("w3r4-wcif-placeholder-helper-wrong-field", ["C09"], P2, _PH_OLD, _PH_DEF + "            element_val = text_or(\"element\", \"?\")\n            altloc_val = text_or(\"iCode\", \".\")\n            icode_val = text_or(\"iCode\", \".\")\n            charge_val = text_or(\"charge\", \".\")\n", ["field-map-pdb-to-cif", "field-map-cif-to-pdb", "null-agreement"]))
+A(M("w3r4-wcif-placeholder-not-a-null", ["C09"], P2, _PH_OLD, _PH_DEF + "            element_val = text_or(\"element\", \"?\")\n            altloc_val = text_or(\"altLoc\", \"-\")\n            icode_val = text_or(\"iCode\", \".\")\n            charge_val = text_or(\"charge\", \".\")\n", ["null-agreement", "field-map-pdb-to-cif"]))
+
+# ---- residue accessors on interpreted instances
+_ACC_OLD = "    @property\n    def chain_id(self) -> str:\n        \"\"\"Get the chain identifier for this residue.\"\"\"\n        if self.format == \"PDB\":\n            return self.atoms[\"chainID\"].iloc[0]\n        elif self.format == \"mmCIF\":\n            if \"auth_asym_id\" in self.atoms.columns:\n                return self.atoms[\"auth_asym_id\"].iloc[0]\n            else:\n                return self.atoms[\"label_asym_id\"].iloc[0]\n        return \"\"\n"
+_ACC_NEW = "    def _first(self, *columns):\n        for column in columns:\n            if column in self.atoms.columns:\n                return self.atoms[column].iloc[0]\n        raise KeyError(columns)\n\n    @property\n    def chain_id(self) -> str:\n        \"\"\"Get the chain identifier for this residue.\"\"\"\n        if self.format == \"PDB\":\n            return self._first(\"chainID\")\n        if self.format == \"mmCIF\":\n            return self._first(%s)\n        return \"\"\n"
+A(M("w3r4-t2-accessor-helper-silent", ["C15"], T2F, _ACC_OLD, _ACC_NEW % "\"auth_asym_id\", \"label_asym_id\"", kind="silent"))
+A(M("w3r4-t2-accessor-helper-label-first", ["C15"], T2F, _ACC_OLD, _ACC_NEW % "\"label_asym_id\", \"auth_asym_id\"", "prefer-auth"))
+A(M("w3r4-t2-find-atom-label-first", ["C15"], T2F, '            if "auth_atom_id" in self.atoms.columns:\n                mask = self.atoms["auth_atom_id"] == atom_name', '            if "label_atom_id" in self.atoms.columns:\n                mask = self.atoms["label_atom_id"] == atom_name', "atom-by-name"))
